@@ -33,8 +33,27 @@ def main():
     except common.InfraError as e:
         print("INFRASTRUCTURE-ERROR property=%s %s" % (a.prop, e), file=sys.stderr)
         return 2
-    except Exception:
+    except Exception as e:
         traceback.print_exc()
+        # An exception raised INSIDE the implementation (innermost frames under $VERIF_REPO/src) that the harness did
+        # not expect means the correspondence run could not be carried out on the code as it is now: the property is
+        # no longer shown to hold.  Reported as the brief prescribes for a broken correspondence without a failing
+        # input.  An exception raised by harness code itself stays an infrastructure error.
+        repo_src = os.path.realpath(os.path.join(os.environ.get("VERIF_REPO", "/repo"), "src")) + os.sep
+        frames = traceback.extract_tb(e.__traceback__)
+        if frames and os.path.realpath(frames[-1].filename).startswith(repo_src):
+            payload = {"property": a.prop, "kind": "no-failing-input-found", "seed": seed, "tier": a.tier,
+                       "no_longer_checks": ["correspondence run of %s: the implementation raised %s where the harness "
+                                            "expects none (%s:%d)" % (a.prop, type(e).__name__,
+                                                                      frames[-1].filename[len(repo_src):], frames[-1].lineno)],
+                       "traceback": traceback.format_exc()[-3000:]}
+            path = ctx.write_replay(payload)
+            try:
+                ctx.write_evidence(1)
+            except Exception:
+                pass
+            print("VIOLATION property=%s replay=%s no-failing-input-found" % (a.prop, path))
+            return 1
         print("INFRASTRUCTURE-ERROR property=%s (unexpected exception in the harness)" % a.prop, file=sys.stderr)
         return 2
 
